@@ -51,13 +51,13 @@ def rlit(x):
     return f"({s})" if s.startswith("-") else s
 
 
-INTERVAL_HEADER = ("From Coq Require Import Reals List.\nFrom Interval Require Import Tactic.\n"
+INTERVAL_HEADER = ("From Coq Require Import Reals List Lra.\nFrom Interval Require Import Tactic.\n"
                    "From TLX Require Import Model.Poly Model.Relax Gen.Ops.\nImport ListNotations.\nLocal Open Scope R_scope.\n")
 UNFOLD = ("cbv [mix mix_loop soft_raw softmax rsum gate_values mix_n peval_R peval op map seq combine fold_right fold_left fst snd "
           "sigmoid soft_walsh wform one_hot Nat.eqb nth EXTRA]")
 
 
-def interval_goals(ck, name, goals, extra_imports="", extra_unfold="", prec=64, timeout=900):
+def interval_goals(ck, name, goals, extra_imports="", extra_unfold="", prec=64, timeout=900, pre_tac="idtac"):
     """goals: list of (label, coq_real_expr, observed_float, tol).  Each becomes a lemma
        Rabs (expr - observed) <= tol closed by `interval` and checked by Qed.  Returns list of failed labels."""
     failed = []
@@ -67,7 +67,7 @@ def interval_goals(ck, name, goals, extra_imports="", extra_unfold="", prec=64, 
         txt = INTERVAL_HEADER + extra_imports
         for k, (label, expr, obs, tol) in enumerate(todo):
             txt += (f"Lemma g{k} : Rabs ({expr} - {rlit(obs)}) <= {rlit(tol)}.\n"
-                    f"Proof. {unfold}; interval with (i_prec {prec}). Qed.\n")
+                    f"Proof. {unfold}; {pre_tac}; interval with (i_prec {prec}). Qed.\n")
         rc, out, err = ck.coq_eval(name, txt, timeout=timeout)
         if rc == 0:
             break
